@@ -114,6 +114,18 @@ def case_cells(chunk):
             e = np.abs(f - o * res**2)[ok].max() / sc
             if not e <= 1e-9:
                 v.append({"sub": "rotation", "sig": "rotation/pointwise", "msg": "%s wd=%g: differs from the footprint evaluated at the rotated coordinates by %.2e of the maximum" % (lab, wd, e)})
+        # the same square grid with the receptor OFF its centre (equal rows and columns, cardinal and oblique directions):
+        # the footprint turns about the receptor, not about the middle of the grid
+        for rx, ry in ((30.0, -50.0), (-70.0, 20.0)):
+            for wd in (0.0, 90.0, 180.0, 270.0, 45.0, 137.5, 360.0, -90.0):
+                gx, gy, f = _call(zm, z0, ws, us, L, sv, dom, res, [rx, ry], wd=wd)
+                n += 1
+                xr, yr = km.rotate(gx - rx, gy - ry, wd)
+                o, _ = km.footprint(xr, yr, zm, z0, ws, us, L, sv)
+                ok = np.abs(xr) > 1e-9
+                e = np.abs(f - o * res**2)[ok].max() / sc
+                if not e <= 1e-9:
+                    v.append({"sub": "rotation", "sig": "rotation/off-centre", "msg": "%s wd=%g, receptor (%g, %g) on a square grid: differs from the footprint evaluated at the coordinates rotated about the receptor by %.2e of the maximum" % (lab, wd, rx, ry, e)})
         # wd=90 is the along-wind grid itself; the others are quarter turns of it (image rows run north -> south)
         for wd, k in ((90.0, 0), (0.0, 1), (270.0, 2), (180.0, 3)):
             e = np.abs(F[wd] - np.rot90(base, k)).max() / sc
